@@ -17,3 +17,4 @@ pub mod worker;
 pub mod sched;
 pub mod sysw;
 pub mod env;
+pub mod rpc;
